@@ -116,3 +116,7 @@ let () =
   register "d16.in_grammar16" (function [t] -> vbool (EngineDomain16.in_grammar16 (template16 t)) | _ -> failwith "arity");
   register "d16.wf16" (function [tt; structs; protos; msgs; t] ->
       vbool (EngineDomain16.wf16_rows (rows tt) (strs structs) (strs protos) (strs msgs) (template16 t)) | _ -> failwith "arity")
+
+let () =
+  register "d07.names_ok_shipped" (function [lines; tt; structs; protos; msgs] ->
+      vbool (Parse16.names_ok_shipped (strs lines) (rows tt) (strs structs) (strs protos) (strs msgs)) | _ -> failwith "arity")
